@@ -11,7 +11,7 @@
 
    1 "everything accumulated reaches the API server as merge-patches"
         full      C08_everything_sent (every key, incl. status: None, in exactly one payload), C08_merge_parts_sent (all planned
-                  requests are sent when nothing is refused), C08_merge_complete (no subresource: exact final object, arbitrary
+                  requests are sent when nothing is refused), C08_merge_sent_irrespective_of_body (the handled body has no say), C08_merge_complete (no subresource: exact final object, arbitrary
                   post, incl. the transformations under the from_diff law), C08_merge_complete_sub (subresource, plain server:
                   final object = RFC 7386 merge of the whole patch, key by key, for every patch with unique keys)
         refuted   C08_fns_complete_sub_refuted (finding F802: with a subresource the JSON-patch ops are routed by destination path
@@ -70,6 +70,16 @@ Theorem C08_merge_parts_sent : forall S serve diff has_sub patch fns orig (s0 : 
   filter (fun q => negb (po_is_json q)) (map fst (r_log r)) = po_merge_plan has_sub patch.
 Proof. exact po_merges_sent. Qed.
 Print Assumptions C08_merge_parts_sent.
+
+(* ... irrespective of the body the patch was accumulated against (a field whose value equals the handled body is still a field),
+   of the transformations and of the server state *)
+Theorem C08_merge_sent_irrespective_of_body : forall S serve diff has_sub patch fns fns' orig orig' (s0 s0' : S),
+  let r := patch_obj S serve diff has_sub patch fns orig s0 in
+  let r' := patch_obj S serve diff has_sub patch fns' orig' s0' in
+  po_all_ok (r_log r) = true -> po_all_ok (r_log r') = true ->
+  filter (fun q => negb (po_is_json q)) (map fst (r_log r)) = filter (fun q => negb (po_is_json q)) (map fst (r_log r')).
+Proof. exact po_merges_irrespective_of_body. Qed.
+Print Assumptions C08_merge_sent_irrespective_of_body.
 
 (* ... and the plan covers every key of the patch: the key `status` (incl. `status: None`, which removes the status —
    finding F801, repaired by kopf commit 0a8dc55) goes to /status iff there is the subresource, every other key to the
